@@ -474,6 +474,15 @@ impl ISocket for DealerSocket {
     if !self.core.is_running() {
       return Err(ZmqError::InvalidState("Socket is closing".into()));
     }
+    // A message partly consumed with recv() continues here: return its remaining frames
+    // instead of jumping to the next message.
+    if let Some(rest) = self.frame_recv_buffer.lock().take() {
+      if !rest.is_empty() {
+        let mut fb = FrameBatch::new();
+        fb.extend(rest);
+        return Ok(fb);
+      }
+    }
     let rcvtimeo_opt: Option<Duration> = self.core.core_state.read().options.rcvtimeo;
     let (_, batch) = self.ingress_engine.recv_logical_message(rcvtimeo_opt).await?;
     self.process_incoming_zmtp_message_for_dealer(0, batch)
